@@ -115,6 +115,7 @@ def enumerate_decls(ctx, label, **kw):
             if key not in seen:
                 seen.add(key)
                 uniq.append(e)
+        uniq.sort(key=lambda e: (e["ctx"], " ".join(e["toks"])))
         return uniq
     finally:
         rmtree(wd)
